@@ -464,6 +464,20 @@ func C08(r *Run) {
 			}
 		}
 	}
+	// (v') cycles made of FILENAME parents only: a link whose target has a longer name
+	// (app.yaml -> app.prod.live.yaml, whose filename parents lead back to app.yaml)
+	for _, top := range []string{"app.yaml", "app.prod.yaml", "app.prod.live.yaml", "app.prod.live.x.yaml"} {
+		top := top
+		submit(func() [][]byte {
+			d := newDir()
+			defer os.RemoveAll(d)
+			os.WriteFile(filepath.Join(d, "app.prod.live.yaml"), []byte("n: 2\n"), 0o644)
+			os.WriteFile(filepath.Join(d, "app.prod.yaml"), []byte("n: 1\n"), 0o644)
+			os.WriteFile(filepath.Join(d, "app.prod.live.x.yaml"), []byte("n: 3\n"), 0o644)
+			os.Symlink("app.prod.live.yaml", filepath.Join(d, "app.yaml"))
+			return toolRuns(d, top, "", nil, "filename-parent cycle through a symlink")
+		})
+	}
 	// YAML alias cycles (a node that contains an alias to itself)
 	for _, y := range []string{"a: &x\n  b: *x\n", "&r\n- *r\n", "a: &x\n  b: &y\n    c: *x\n    d: *y\n"} {
 		y := y
